@@ -4,6 +4,7 @@ package interp
 // environment event so harnesses can assert on the order of effects (C11, C12, C20).
 
 import (
+	"path"
 	"go/types"
 	"sort"
 	"strings"
@@ -28,9 +29,9 @@ func mkPathError(fr *frame, op, p, msg string) value {
 
 func (v *venv) abs(p string) string {
 	if strings.HasPrefix(p, "/") {
-		return p
+		return path.Clean(p)
 	}
-	return v.cwd + "/" + p
+	return path.Clean(v.cwd + "/" + p)
 }
 
 func init() {
@@ -38,22 +39,26 @@ func init() {
 	H := harnessIntrinsics
 	I["os.UserHomeDir"] = func(fr *frame, a []value) value { return tuple{"/home/verif", nilError()} }
 	I["os.Getwd"] = func(fr *frame, a []value) value {
+		fr.i.fsYield("getwd")
 		fr.i.ex.event("getwd", fr.i.ex.env().cwd)
 		return tuple{fr.i.ex.env().cwd, nilError()}
 	}
 	I["os.Chdir"] = func(fr *frame, a []value) value {
+		fr.i.fsYield("chdir")
 		p := fr.i.ex.concStr(a[0])
 		fr.i.ex.event("chdir", p)
 		fr.i.ex.env().cwd = fr.i.ex.env().abs(p)
 		return nilError()
 	}
 	I["os.MkdirAll"] = func(fr *frame, a []value) value {
+		fr.i.fsYield("mkdir")
 		p := fr.i.ex.env().abs(fr.i.ex.concStr(a[0]))
 		fr.i.ex.event("mkdir", p)
 		fr.i.ex.env().dirs[p] = true
 		return nilError()
 	}
 	I["os.ReadFile"] = func(fr *frame, a []value) value {
+		fr.i.fsYield("read")
 		p := fr.i.ex.env().abs(fr.i.ex.concStr(a[0]))
 		fr.i.ex.event("read", p)
 		if c, ok := fr.i.ex.env().files[p]; ok {
@@ -62,6 +67,7 @@ func init() {
 		return tuple{[]value(nil), mkPathError(fr, "open", p, "no such file or directory")}
 	}
 	I["os.WriteFile"] = func(fr *frame, a []value) value {
+		fr.i.fsYield("write")
 		p := fr.i.ex.env().abs(fr.i.ex.concStr(a[0]))
 		c := bytesAsStr(a[1])
 		fr.i.ex.event("write", p)
@@ -69,6 +75,7 @@ func init() {
 		return nilError()
 	}
 	I["os.Remove"] = func(fr *frame, a []value) value {
+		fr.i.fsYield("remove")
 		p := fr.i.ex.env().abs(fr.i.ex.concStr(a[0]))
 		fr.i.ex.event("remove", p)
 		delete(fr.i.ex.env().files, p)
@@ -123,6 +130,13 @@ func init() {
 	}
 	H["verifPath"] = func(fr *frame, a []value) value { return a[0] }
 	H["verifCwd"] = func(fr *frame, a []value) value { return fr.i.ex.env().cwd }
+}
+
+// fsYield: file-system operations are scheduling points once the target is concurrent
+func (i *interpreter) fsYield(op string) {
+	if i.schedActive() {
+		i.sched.yield("fs-"+op, nil)
+	}
 }
 
 func strOfLoose(v value) value {
